@@ -566,6 +566,9 @@ class Interp:
         elif k == "sort":
             for _, e in t["keys"]:
                 check_refs(e, rel.cols)
+        elif k == "exclude":
+            for e in t["cols"]:
+                check_refs(e, rel.cols)
         return getattr(self, "t_" + k)(t, rel)
 
     # -- row-wise
@@ -612,6 +615,15 @@ class Interp:
         r.pokeys = rel.pokeys
         _carry(rel, r)
         return r
+
+    def t_exclude(self, t, rel):
+        """select !{..}: every column of the frame, in order, except the named ones."""
+        drop = {lookup(rel.cols, e[1], e[2]) for e in t["cols"]}
+        keep = [i for i in range(len(rel.cols)) if i not in drop]
+        r = Rel([rel.cols[i] for i in keep], [tuple(row[i] for i in keep) for row in rel.rows], rel.okeys)
+        r.pokeys = rel.pokeys
+        _carry(rel, r)
+        return _carry_cols(rel, r)
 
     def t_derive(self, t, rel):
         items = t["items"]
